@@ -3,6 +3,8 @@ package checks
 import (
 	"fmt"
 
+	"verif/explore"
+
 	"verif/hapi"
 )
 
@@ -68,58 +70,117 @@ func coreSchedSpecs(quick bool) []*EngSpec {
 	return specs
 }
 
+// SeqOracleC01: the user-level corollary after every step of a history: if all holders carry the same Count c
+// there are at most c+1 holds (re-entrant depth left aside: it is bounded by Rcount, C02).
+func SeqOracleC01(r *SeqRun) []explore.Violation {
+	var vs []explore.Violation
+	for si, st := range r.Steps {
+		if st.Snap == nil {
+			continue
+		}
+		for _, k := range st.Snap.Keys {
+			if k.Managers > 1 {
+				vs = append(vs, explore.Violation{Sig: "C01:two-managers-one-key", Msg: fmt.Sprintf("step %d (%s): key %x carried by %d managers", si+1, st.Op, k.Key[15], k.Managers)})
+			}
+			if len(k.Holds) == 0 {
+				continue
+			}
+			same := true
+			for _, h := range k.Holds {
+				if h.Count != k.Holds[0].Count {
+					same = false
+				}
+			}
+			if same && len(k.Holds) > int(k.Holds[0].Count)+1 {
+				vs = append(vs, explore.Violation{Sig: "C01:more-than-count-plus-one", Msg: fmt.Sprintf("step %d (%s): key %x has %d simultaneous holders although every holder has Count %d (%s)", si+1, st.Op, k.Key[15], len(k.Holds), k.Holds[0].Count, holdsStr(k))})
+			}
+		}
+	}
+	return dedupe(vs)
+}
+
+// c01SemSpecs: semaphore histories. A key is filled to its limit (Count c: c+1 holders), then holders at the
+// head, in the middle and at the tail of the holder queue are released, slots are re-taken by new and by
+// previously used LockIds, and requests with a smaller Count arrive.
+func c01SemSpecs(quick bool) []*SeqSpec {
+	cfg := hapi.Config{FastKeys: 1, Concurrent: 1}
+	d := 4
+	if !quick {
+		d = 5
+	}
+	var specs []*SeqSpec
+	for _, c := range []uint16{1, 2, 3} {
+		n := int(c) + 1
+		var ramp, a []SeqOp
+		for i := 1; i <= n; i++ {
+			ramp = append(ramp, op(0, L(0, 1, byte(i), 0, 50, c, 0)))
+		}
+		for i := 1; i <= n+2; i++ {
+			a = append(a, op(i%2, L(0, 1, byte(i), 0, 50, c, 0)))
+		}
+		for i := 1; i <= n+1; i++ {
+			a = append(a, op(i%2, U(0, 1, byte(i))))
+		}
+		a = append(a,
+			op(1, L(0, 1, byte(n), 0, 50, c, 1)),                  // re-entrant attempt by the tail holder
+			op(1, L(0, 1, 9, 2, 50, c-1, 0)),                      // a request that tolerates one holder less, waits 2 s
+			op(1, L(0, 1, 8, 0, 50, 0, 0)),                        // an exclusive request
+			op(0, hapi.Cmd{Type: 2, Key: 1, Id: 200, Flag: 0x01}), // unlock-first
+			tick(3*sec))
+		specs = append(specs, &SeqSpec{Name: fmt.Sprintf("semaphore-count-%d", c), Cfg: cfg, Ramp: ramp, Alphabet: a, Depth: d, MonC01: true, MaxStates: 300000})
+	}
+	// mixed Counts from the empty key
+	var a []SeqOp
+	for _, id := range []byte{1, 2, 3} {
+		for _, c := range []uint16{0, 1, 2} {
+			a = append(a, op(int(id)%2, L(0, 1, id, 0, 50, c, 0)))
+		}
+		a = append(a, op(int(id)%2, U(0, 1, id)))
+	}
+	a = append(a, op(0, L(0, 1, 4, 3, 50, 1, 0)), tick(4*sec))
+	specs = append(specs, &SeqSpec{Name: "mixed-counts", Cfg: cfg, Alphabet: a, Depth: d, MonC01: true, MaxStates: 300000})
+	return specs
+}
+
 func init() {
-	plan := func(quick bool) *SchedPlan {
-		return &SchedPlan{Specs: coreSchedSpecs(quick), Monitors: []MonitorFactory{MonitorC01}, Oracles: []Oracle{OracleC01Quiescent},
-			Bound: func(s *EngSpec, q bool) int {
-				timed := false
-				for _, t := range s.Threads {
-					for _, st := range t {
-						if st.SleepUntil > 0 {
-							timed = true
+	comboCheck(comboDef{id: "C01", level: "exploration",
+		sched: func(q bool) *SchedPlan {
+			return &SchedPlan{Specs: coreSchedSpecs(q), Monitors: []MonitorFactory{MonitorC01}, Oracles: []Oracle{OracleC01Quiescent},
+				Bound: func(s *EngSpec, q bool) int {
+					timed := false
+					for _, t := range s.Threads {
+						for _, st := range t {
+							if st.SleepUntil > 0 {
+								timed = true
+							}
 						}
 					}
-				}
-				if q {
-					if timed || len(s.Threads) > 2 {
-						return 2
+					if q {
+						if timed || len(s.Threads) > 2 {
+							return 2
+						}
+						return 3
 					}
-					return 3
-				}
-				if timed || len(s.Threads) > 2 {
-					return 3
-				}
-				return 4
-			},
-			MaxExec: func(s *EngSpec, q bool) int64 {
-				if q {
-					return 8000
-				}
-				return 500000
-			}}
-	}
-	Registry["C01"] = func(c *Ctx) int {
-		p := plan(c.Quick())
-		if c.Worker >= 0 {
-			return p.Worker(c)
-		}
-		if len(c.Args) == 2 && c.Args[0] == "--replay" {
-			return p.ReplayFile(c, c.Args[1])
-		}
-		res := p.Master(c)
-		if res.EngineErr != "" {
-			return EngineError("%s", res.EngineErr)
-		}
-		cov := res.Coverage("deviation-bounded DFS over thread schedules of 2-3 client threads on one key / two keys in one fast slot; every mutex, atomic and channel operation of the instrumented engine is a preemption point; a trace is the sequence of replies with virtual timestamps plus drained snapshots; non-trivial = at least two client threads were answered", p, c.Quick())
-		c.WriteEvidence("exploration", cov, []string{
+					if timed || len(s.Threads) > 2 {
+						return 3
+					}
+					return 4
+				},
+				MaxExec: func(s *EngSpec, q bool) int64 {
+					if q {
+						return 8000
+					}
+					return 500000
+				}}
+		},
+		seq: func(q bool) *SeqPlan {
+			return &SeqPlan{Specs: c01SemSpecs(q), Oracles: []SeqOracle{SeqOracleC01}}
+		},
+		rule: "deviation-bounded DFS over thread schedules of 2-3 client threads on one key / two keys in one fast slot; every mutex, atomic and channel operation of the instrumented engine is a preemption point; the grant rule is checked by a transition monitor at every release of a shard mutex; a trace is the sequence of replies with virtual timestamps plus drained snapshots; non-trivial = at least two client threads were answered",
+		note: "histories: breadth-first search over semaphore histories from keys filled to their limit (Count 1-3) and over mixed Counts from the empty key; the same transition monitor runs inside every step, and after every step the holders are counted",
+		assumptions: []string{
 			"runtime is sequentially consistent (no weak-memory effects); data races are outside this check",
 			"deviation = any non-default scheduling choice (preemptive or not); executions run to completion",
-			"value alphabet: Count in {0,1}, Rcount in {0,1}, timeouts/expiries of a few seconds",
-		}, res.Violations)
-		fmt.Printf("C01 %s: %d executions, %d distinct traces, %d violations\n", c.Tier, res.Total.Executions, len(res.Total.Traces), res.Violations)
-		if res.Violations > 0 {
-			return 1
-		}
-		return 0
-	}
+			"value alphabet: schedules use Count in {0,1}, Rcount in {0,1}; histories use Count in {0..3}, up to 6 LockIds; timeouts/expiries of a few seconds",
+		}})
 }
